@@ -106,8 +106,8 @@ class PostgresImpl(SqlImpl):
     def fix_fn_types(cls, fn: ColFn, val: sqa.ColumnElement, *args: sqa.ColumnElement) -> sqa.ColumnElement:
         if isinstance(fn.op, ops.DatetimeExtract | ops.DateExtract):
             return sqa.cast(val, sqa.BigInteger)
-        elif fn.op in (ops.sum, ops.cum_sum):
-            # postgres sometimes switches types for `sum`
+        elif fn.op in (ops.sum, ops.cum_sum) and not isinstance(args[0].type, sqa.types.NullType):
+            # postgres sometimes switches types for `sum` (an untyped argument - GREATEST / LEAST, a CASE over NULL - has no type to go back to)
             return sqa.cast(val, args[0].type)
         return val
 
